@@ -4,7 +4,9 @@ import (
 	"fmt"
 	"go/types"
 	"os"
+	"sort"
 	"strings"
+	"sync"
 
 	"golang.org/x/tools/go/ssa"
 
@@ -24,6 +26,7 @@ var ghostTok = absint.ObjPtr("GHOST:lastAssign", nil)
 //	O-str  a string token ends exactly at an accepted hit and scanning resumes
 //	       right after the needle; with no hit it runs to end of input, unclosed.
 func ohitHooks(sr *sqlRoots, name string, hooks *absint.Hooks) {
+	lc := sr.loops()
 	env := sr.env
 	a := env.a
 	assign := a.Fn("sql.assign")
@@ -50,6 +53,111 @@ func ohitHooks(sr *sqlRoots, name string, hooks *absint.Hooks) {
 			e.SetCell(st, ghostTok, "class", absint.IntV{L: absint.K(c)})
 		} else {
 			e.Havoc(st, ghostTok, "class")
+		}
+	}
+	prevSearch, prevEdge := hooks.OnSearch, hooks.OnHeadEdge
+	var smu sync.Mutex
+	searchCalls := map[int64]*ssa.Call{}
+	hooks.OnSearch = func(e *absint.Engine, st *absint.State, fr *absint.Frame, call *ssa.Call, prev *absint.Hit, cur absint.Hit) {
+		if prevSearch != nil {
+			prevSearch(e, st, fr, call, prev, cur)
+		}
+		rc := sr.getCtx(name)
+		if rc == nil || cur.Hay.Const != nil || cur.Hay.Root != rc.In.Root {
+			return
+		}
+		smu.Lock()
+		searchCalls[int64(call.Pos())] = call
+		smu.Unlock()
+		lo := cur.Hay.Lo.Sub(rc.In.Lo)
+		r := absint.SymLin(cur.R)
+		// the candidate this search produced, for the back edge that may reject it
+		e.SetCell(st, ghostTok, "searchFrame", absint.IntV{L: absint.K(int64(fr.ID()))})
+		e.SetCell(st, ghostTok, "searchOrg", absint.IntV{L: absint.K(int64(call.Pos()))})
+		e.SetCell(st, ghostTok, "cand", absint.IntV{L: lo.Add(r)})
+		e.SetCell(st, ghostTok, "candR", absint.IntV{L: r})
+		if lc.inLoop(call) == nil {
+			// a search outside any loop is its own first search
+			e.SetCell(st, ghostTok, "first", absint.IntV{L: lo})
+		}
+	}
+	hooks.OnHeadEdge = func(e *absint.Engine, st *absint.State, fr *absint.Frame, from, head *ssa.BasicBlock, back bool) {
+		if prevEdge != nil {
+			prevEdge(e, st, fr, from, head, back)
+		}
+		rc := sr.getCtx(name)
+		if rc == nil {
+			return
+		}
+		// the terminator searches inside this loop
+		for _, b := range fr.Fn().Blocks {
+			for _, ins := range b.Instrs {
+				call, ok := ins.(*ssa.Call)
+				if !ok {
+					continue
+				}
+				cal := call.Call.StaticCallee()
+				if cal == nil || (cal.String() != "strings.IndexByte" && cal.String() != "strings.Index") {
+					continue
+				}
+				l := lc.inLoop(call)
+				if l == nil || l.Head != head {
+					continue
+				}
+				next, okN := nextHaystackLo(e, st, fr, call, from, head, rc.In)
+				what := core.Short(ssax.Canon(call))
+				if !back {
+					// entering the loop: where the first search will start
+					if okN {
+						e.SetCell(st, ghostTok, "first", absint.IntV{L: next})
+					} else {
+						e.Havoc(st, ghostTok, "first")
+					}
+					continue
+				}
+				// round the loop: the candidate of this iteration was rejected
+				fc, ok1 := e.CellOf(st, ghostTok, "searchFrame")
+				oc, ok2 := e.CellOf(st, ghostTok, "searchOrg")
+				cc, ok3 := e.CellOf(st, ghostTok, "cand")
+				rr, ok4 := e.CellOf(st, ghostTok, "candR")
+				f, isF := absint.ConstOf(fc)
+				o, isO := absint.ConstOf(oc)
+				if !ok1 || !ok2 || !ok3 || !ok4 || !isF || !isO || f != int64(fr.ID()) || o != int64(call.Pos()) {
+					continue // this iteration did not execute the search
+				}
+				cand, candR := cc.(absint.IntV).L, rr.(absint.IntV).L
+				okR := okN && e.ProveLE(st, absint.K(0), candR)
+				why := ""
+				switch {
+				case !okN:
+					why = "cannot determine where the next search starts: undecided"
+				case !okR:
+					why = "the loop goes round although the search may have found nothing"
+				case e.ProveEQ(st, next, cand.AddK(1)):
+				case e.ProveEQ(st, next, cand.AddK(2)):
+					m := e.MaskOf(st, absint.ByteV{Root: rc.In.Root, Idx: rc.In.Lo.Add(cand).AddK(1)})
+					var hm absint.Mask
+					for _, h := range e.Hits(st) {
+						if h.Org == ssa.Instruction(call) {
+							hm = h.Mask
+						}
+					}
+					disjoint := true
+					for b := 0; b < 256; b++ {
+						if m.Has(b) && hm.Has(b) {
+							disjoint = false
+						}
+					}
+					if !(m.SubsetOf(hm) && !hm.IsFull()) && !disjoint {
+						okR = false
+						why = fmt.Sprintf("after the rejected candidate at %s the search resumes at candidate + 2: the byte behind the candidate is skipped although it may itself begin the terminator (it is neither known to be the delimiter — a doubled delimiter — nor known not to be)", e.LinStr(cand))
+					}
+				default:
+					okR = false
+					why = fmt.Sprintf("after the rejected candidate at %s the next search starts at %s, neither candidate + 1 nor candidate + 2: a terminator in between is skipped, or the same candidate is found again", e.LinStr(cand), e.LinStr(next))
+				}
+				e.Check(st, fr, call.Pos(), "O-resume", "the terminator search resumes right behind a rejected candidate: "+what, okR, why)
+			}
 		}
 	}
 	hooks.OnReturn = func(e *absint.Engine, st *absint.State, fr *absint.Frame, ret *ssa.Return, val absint.AVal) {
@@ -107,6 +215,11 @@ func ohitHooks(sr *sqlRoots, name string, hooks *absint.Hooks) {
 		}
 		P, L := pc.(absint.IntV).L, lc.(absint.IntV).L
 		end := P.Add(L)
+		if fc, ok := e.CellOf(st, ghostTok, "first"); ok {
+			if fi, isI := fc.(absint.IntV); isI {
+				e.Check(st, fr, ret.Pos(), "O-first", "the terminator search starts where the literal's content starts at "+where, e.ProveEQ(st, fi.L, P), fmt.Sprintf("the first search starts at %s but the literal's content at %s: an early terminator is skipped, or the opener is searched", e.LinStr(fi.L), e.LinStr(P)))
+			}
+		}
 		closed := false
 		for _, h := range found {
 			if e.ProveEQ(st, end, h.pos) {
@@ -205,7 +318,7 @@ func checkC18(c *Ctx) *core.Result {
 	sr.runAll(func(name string, hooks *absint.Hooks) { ohitHooks(sr, name, hooks) })
 	residuals := loadResiduals(c, r)
 	obs := mergeObs(sr.runs)
-	own := map[string]bool{"O-hit": true, "O-str": true, "S-self": true}
+	own := map[string]bool{"O-hit": true, "O-str": true, "S-self": true, "O-resume": true, "O-first": true}
 	n := emitObs(r, obs, residuals, "C18", func(o *absint.Ob) bool { return own[o.Rule] })
 	if n < 25 {
 		r.Fail("vacuity", "-", "string-literal obligations", "-", fmt.Sprintf("only %d obligations generated (expected ≥ 25)", n))
@@ -258,4 +371,65 @@ func checkC18(c *Ctx) *core.Result {
 	r.Explanation = e3Explain + " C18 adds at the return of every lexer: O-hit (every search hit of the step — IndexByte/Index on the input — satisfies hit + len(needle) ≤ returned cursor), and for string tokens O-str (the literal ends exactly at a found terminator and the cursor becomes that position + len(needle), with strClose ≠ 0; or no terminator was found, the literal runs to end of input, the cursor is the length and strClose = 0). S-self: no strings.Index of a string for a substring of itself (finds the first copy, not the one at the known offset). S-conv: no string(byte) of an input-derived byte. K6: the string lexer depends on (pos, offset) only through pos+offset, so the real and the simulated opening quote are treated alike. NOT decided: backslash parity and the doubled-delimiter rule themselves (which hits are rejected)."
 	r.Trusted = []string{"go/ssa", "E3 transfer functions and library models (search results)", "in-checker simplex"}
 	return r
+}
+
+// nextHaystackLo evaluates, on the edge from→head, where the haystack of the
+// search call (inside the loop of head) will start in the coming iteration:
+// the haystack is a string phi of the head, or a slice x[low:] whose low bound
+// is linear in phis of the head and values computed before.
+func nextHaystackLo(e *absint.Engine, st *absint.State, fr *absint.Frame, call *ssa.Call, from, head *ssa.BasicBlock, in absint.StrV) (absint.Lin, bool) {
+	incoming := func(v ssa.Value) ssa.Value {
+		if ph, ok := v.(*ssa.Phi); ok && ph.Block() == head {
+			for i, p := range head.Preds {
+				if p == from {
+					return ph.Edges[i]
+				}
+			}
+		}
+		return v
+	}
+	strOf := func(v ssa.Value) (absint.StrV, bool) {
+		sv, ok := e.Val(st, fr, incoming(v)).(absint.StrV)
+		if !ok || sv.Const != nil || sv.Root != in.Root {
+			return absint.StrV{}, false
+		}
+		return sv, true
+	}
+	arg := call.Call.Args[0]
+	switch x := arg.(type) {
+	case *ssa.Phi:
+		if x.Block() != head {
+			return absint.Lin{}, false
+		}
+		sv, ok := strOf(x)
+		if !ok {
+			return absint.Lin{}, false
+		}
+		return sv.Lo.Sub(in.Lo), true
+	case *ssa.Slice:
+		base, ok := strOf(x.X)
+		if !ok {
+			return absint.Lin{}, false
+		}
+		lo := base.Lo.Sub(in.Lo)
+		if x.Low == nil {
+			return lo, true
+		}
+		lf := linOf(x.Low, map[ssa.Value]*linForm{}, 0)
+		lo = lo.AddK(lf.k)
+		var leaves []ssa.Value
+		for v := range lf.coef {
+			leaves = append(leaves, v)
+		}
+		sort.Slice(leaves, func(i, j int) bool { return leaves[i].Name() < leaves[j].Name() })
+		for _, v := range leaves {
+			iv, ok := e.AsInt(st, e.Val(st, fr, incoming(v)))
+			if !ok {
+				return absint.Lin{}, false
+			}
+			lo = lo.Add(iv.Scale(lf.coef[v]))
+		}
+		return lo, true
+	}
+	return absint.Lin{}, false
 }
